@@ -9,7 +9,7 @@ from props.base import Context  # noqa: F401
 
 PID = 'C20'
 TIE_MODULES = []
-EXTRA_MODULES = ['DiffxVerif.Properties.C20Writer']
+EXTRA_MODULES = ['DiffxVerif.Properties.C20Writer', 'DiffxVerif.Properties.C02Closed']
 NEEDS = []
 # a change of these pattern tables makes the check search with its escalated budget (no obligation)
 SOFT_PATTERNS = ['re_lexer']
